@@ -153,11 +153,41 @@ def check(ctx):
                 if any(a.endswith("SystemCommand") for a in args) and from_env:
                     id_cmp.add(b)
             ok = all(any(r.get(b) is True for b in rt_cmp) and any(r.get(b) is True for b in id_cmp) for r in reqs)
+        if not ok and not cls:
+            # loop form: an index scan over the list with in-place order-preserving removal; the removal is reached only
+            # where the element at the position compared equal on both the reaction type and the system id
+            def is_list(op):
+                return any(f[1] == "reactors" for f, ch in lib.receiver_chains(er, op))
+            for sc in lib.index_scans(er, is_list):
+                rt_h, id_h = [], []
+                for (b, t, fr, is_eq) in lib.comparison_calls(er):
+                    if b not in sc["region"]:
+                        continue
+                    args = fr.get("args", [])
+                    both = origins(er, t["args"][0]) | origins(er, t["args"][1])
+                    def _elem(o, depth=0):
+                        if o[0] != "call":
+                            return False
+                        if o[1] == sc["index_block"]:
+                            return True
+                        a_ = er.blocks[o[1]]["term"].get("args") or []
+                        return depth < 2 and bool(a_) and any(_elem(o2, depth + 1) for o2 in origins(er, a_[0]))
+                    from_elem = any(_elem(o) for o in both)
+                    heads = [(tt if is_eq else ft) for (sb, tt, ft) in lib.bool_arms(er, b)]
+                    if any(a.endswith("EntityReactionType") for a in args) and from_elem and any(o[0] == "arg" and o[1] == 2 for o in both):
+                        rt_h += heads
+                    if any(a.endswith("SystemCommand") for a in args) and from_elem and any(o[0] == "arg" and o[1] == 3 for o in both):
+                        id_h += heads
+                ok = sc["well_formed"] and any(er.dominates(h_, sc["remove_block"]) for h_ in rt_h) \
+                    and any(er.dominates(h_, sc["remove_block"]) for h_ in id_h)
         ctx.check(ok, "C06.b", "EntityReactors::remove:predicate-needs-type-and-id", "%s:%d" % (er.file, er.line),
                   "entry is removed only where reaction type and system id both compared equal",
                   "EntityReactors::remove's predicate does not require both the reaction type and the system id to match")
         ops = lib.field_method_calls(er, "EntityReactors", "reactors")
-        ctx.check(all(T.classify(n) in ("order-preserving-remove", "lookup") for _, _, n, _ in ops) and bool(ops), "C06.b",
+        def _reads_only(n):
+            cb_ = prog.by_path.get(n) or next((x for x in prog.bodies if mir.strip_generics(x.path) == mir.strip_generics(n)), None)
+            return cb_ is not None and cb_.arg_count >= 1 and cb_.local_ty(1).startswith("&") and not cb_.local_ty(1).startswith("&mut")
+        ctx.check(all(T.classify(n) in ("order-preserving-remove", "lookup") or _reads_only(n) for _, _, n, _ in ops) and bool(ops), "C06.b",
                   "EntityReactors::remove:order-preserving", "%s:%d" % (er.file, er.line), "drain_filter keeps the other entries in order",
                   "EntityReactors::remove uses %s" % [n for _, _, n, _ in ops])
     except mir.AnchorLost as e:
